@@ -21,6 +21,8 @@ func presets() []scenarioOpts {
 		{NVals: 3, Powers: []int64{20, 30, 40}, Galaxias: "cross", ForkHeight: 3, Heights: 5, Replicas: four, Reopen: true},
 		{NVals: 1, Powers: []int64{20}, Galaxias: "never", Heights: 10, Replicas: []repCfg{all[0], all[1], all[4]}, Reopen: true},
 		{NVals: 3, Powers: []int64{20, 20, 20}, Galaxias: "genesis", Heights: 8, Replicas: []repCfg{all[1], all[0], all[3], all[5]}, ValHook: true},
+		{NVals: 3, Powers: []int64{20, 30, 40}, Galaxias: "never", Heights: 8, Replicas: four, Staking: true, Reopen: true},
+		{NVals: 2, Powers: []int64{20, 20}, Galaxias: "genesis", Heights: 8, Replicas: four, Staking: true},
 	}
 }
 
